@@ -242,6 +242,7 @@ def verdict(c, out, ctx):
         A0, _ = parse_tokens(c.info['A'].split(' ')); B0, _ = parse_tokens(c.info['B'].split(' '))
         if canon(A) != canon(A0): return 'first document is not a member-wise permutation of what it was before %s' % c.info['which']
         if canon(B) != canon(B0): return 'second document is not a member-wise permutation of what it was before %s' % c.info['which']
+        if 'again=DIFF' in toks: return 'calling %s a second time changed the member order of a document (sorting is not idempotent)' % c.info['which']
         kv = dict(t.split('=', 1) for t in toks[ie + 1:] if '=' in t)
         if kv.get('failed') != '0': return 'after %s an append/size/detach probe failed on %s of %s containers' % (c.info['which'], kv.get('failed'), kv.get('probes'))
         # both roots are objects: the utility must have left them sorted
